@@ -67,11 +67,41 @@ def _near_boundary(draw):
                 dt=h * draw(st.sampled_from([1.0, -1.0])), rtol=1e-6, atol=1e-6, dense=draw(st.booleans()), events=evs)
 
 
+@st.composite
+def _junctions(draw):
+    """the span is covered by two or three integrate() calls (all with the events monitored) and crossings lie exactly on, or a
+    few ulps beside, the junction times: each crossing is recorded once, whichever call finds it"""
+    method = draw(st.sampled_from(["RK4Solver", "EulerSolver", "MidpointSolver", "RK45CKSolver", "DOPRI45", "ImplicitMidpoint", "HeunsSolver"]))
+    t0 = draw(st.sampled_from([0.0, 8.0, -50.0, 100.0]))
+    h = draw(st.sampled_from([1 / 16.0, 1 / 4.0]))
+    N = draw(st.integers(4, 8))
+    sgn = draw(st.sampled_from([1.0, 1.0, -1.0]))
+    tf = t0 + sgn * N * h
+    ks = sorted(set(draw(st.lists(st.integers(1, N - 1), min_size=1, max_size=2))))
+    evs = []
+    for _ in range(draw(st.integers(1, 3))):
+        k = draw(st.sampled_from(ks + ks + [draw(st.integers(1, N - 1))]))
+        tj = t0 + sgn * k * h
+        m = draw(st.sampled_from([0, 0, 0, 1, -1, 4]))
+        kind = draw(st.sampled_from(["time", "comp"]))
+        p = dict(h=kind, s=draw(st.sampled_from([1.0, 1e3, 1e-3, -1.0])), direction=draw(st.sampled_from([0, 0, 1, -1])), terminal=False)
+        c = np.float64((0.25 + (tj - t0)) if kind == "comp" else tj)
+        for _i in range(abs(m) if abs(float(c)) >= 1e-3 else 0):      # (next to 0 the neighbours are subnormal: not a meaningful threshold)
+            c = np.nextafter(c, np.float64(np.sign(m) * np.inf))
+        p["c"] = float(c)
+        if kind == "comp":
+            p["i"] = 0
+        evs.append(p)
+    return dict(part="junctions", method=method, dtype="float64", prob=dict(kind="const", y0=[0.25, -1.0], v=[1.0, 0.5]), t0=t0, tf=tf, dt=h,
+                rtol=1e-6, atol=1e-6, dense=draw(st.booleans()), events=evs, pre_targets=[t0 + sgn * k * h for k in ks])
+
+
 def parts(tier):
     q = tier == "quick"
     return [Part("events", strategy=evrun.event_case("events", terminal_mode="none"), examples=700 if q else 15000, timeout=300),
             Part("near_boundary", strategy=_near_boundary(), examples=400 if q else 8000, timeout=300),
             Part("tiny_steps", strategy=_tiny_steps(), examples=200 if q else 4000, timeout=300),
+            Part("junctions", strategy=_junctions(), examples=300 if q else 6000, timeout=300),
             Part("short_steps_deriv", strategy=_short_steps_deriv(), examples=200 if q else 4000, timeout=300)]
 
 
